@@ -27,7 +27,7 @@ func (C08X) CrashProne() bool              { return true }
 func (c C08X) evalAny(sc any) *sim.Outcome { return c.evaluate(sc.(*C08XScenario)) }
 
 func (C08X) Rule() string {
-	return "(x-order) One tree of 4-12 healthy repository fixtures of the real built-in extractors at production paths (plus, with some probability: two or three requirements files that -r include one shared file; a go < 1.17 go.mod with a replace directive and a go.sum that lists the replacement; two files in one nix store directory, optionally one of them over MaxFileSize; a package-lock.json with two entries of one package at the same git commit but different versions), scanned through SimFS with every enabled extractor under P listing orders (every directory lists its entries in the order of a keyed hash of their names; key 0 = sorted) x R repetitions per order (Go map iteration). Oracle: every run yields the same multiset of packages (extractor, name, version, sorted locations, source repo/commit, metadata digest) and the same plugin statuses (status enum per extractor). Non-trivial = at least two listing orders really differ in some directory with two or more entries and at least three extractors reported packages. " + theTable().summary()
+	return "(x-order) One tree of 4-12 healthy repository fixtures of the real built-in extractors at production paths (plus, with some probability: two or three requirements files that -r include one shared file; a go < 1.17 go.mod with a replace directive and a go.sum that lists the replacement; two files in one nix store directory, optionally one of them over MaxFileSize; a package-lock.json with two entries of one package at the same git commit but different versions), scanned through SimFS with every enabled extractor under P listing orders (every directory lists its entries in the order of a keyed hash of their names; key 0 = sorted) x R repetitions per order (Go map iteration). With some probability a SECOND scan root (own os-release, OS package databases of the same extractors, sometimes the same nix store path): one scan of both roots must report exactly the packages of scanning each root alone (union law, metadata included). Oracle: every run yields the same multiset of packages (extractor, name, version, sorted locations, source repo/commit, metadata digest) and the same plugin statuses (status enum per extractor). Non-trivial = at least two listing orders really differ in some directory with two or more entries and at least three extractors reported packages. " + theTable().summary()
 }
 
 func (C08X) Decode(raw json.RawMessage) (any, error) {
@@ -102,6 +102,9 @@ func (C08X) Gen(rt *rapid.T, tier string) any {
 		p.add(FileSpec{Path: "etc/os-release", Src: Src{Text: osRelease}})
 	}
 	sc.Files = p.files
+	if chance(rt, 30, "root2") {
+		genRoot2(rt, t, sc, enabled)
+	}
 	sc.Order.Rev = rapid.Bool().Draw(rt, "rev")
 	sc.Disk.Chunk = oneOf(rt, []int{0, 0, 4096, 509}, "chunk")
 	sc.Orders = []uint64{0}
@@ -191,6 +194,7 @@ func (c C08X) evaluate(sc *C08XScenario) *sim.Outcome {
 	for oi, key := range sc.Orders {
 		for r := 0; r < reps; r++ {
 			spec := sc.RunSpec
+			spec.Root2 = nil
 			spec.ListKey = key
 			obs, err := runScan(&spec, false, sb, nil)
 			if err != nil {
@@ -265,6 +269,56 @@ func (c C08X) evaluate(sc *C08XScenario) *sim.Outcome {
 			}
 		}
 	}
+	// union law: one scan of the roots [A, B] (extractor instances shared, as scalibr does) reports
+	// exactly the packages of a scan of A plus the packages of a scan of B - metadata included
+	if len(sc.Root2) > 0 && len(runs) > 0 {
+		scanOf := func(files, root2 []FileSpec) map[string][]string {
+			spec := sc.RunSpec
+			spec.Files, spec.Root2, spec.ListKey = files, root2, 0
+			obs, err := runScan(&spec, false, sb, nil)
+			if err != nil {
+				panic("harness: " + err.Error())
+			}
+			out.Executions++
+			resetDir(sb.Tmp)
+			if obs.Hang || obs.Panic != "" || obs.Budget != "" || !obs.Returned {
+				return nil
+			}
+			m := map[string][]string{}
+			ps, _ := resultOf(obs)
+			for _, l := range ps {
+				e := strings.SplitN(l, "|", 2)[0]
+				m[e] = append(m[e], l)
+			}
+			return m
+		}
+		both, onlyB := scanOf(sc.Files, sc.Root2), scanOf(sc.Root2, nil)
+		if both == nil || onlyB == nil {
+			out.Count("skipped.scan_did_not_return", 1)
+			return out
+		}
+		out.Count("multi_root", 1)
+		ue := map[string]bool{}
+		for e := range both {
+			ue[e] = true
+		}
+		for e := range onlyB {
+			ue[e] = true
+		}
+		for e := range runs[0].pkgs {
+			ue[e] = true
+		}
+		for _, e := range sortedKeys(ue) {
+			union := append(append([]string(nil), runs[0].pkgs[e]...), onlyB[e]...)
+			sort.Strings(union)
+			got := append([]string(nil), both[e]...)
+			sort.Strings(got)
+			if strings.Join(union, "\n") != strings.Join(got, "\n") {
+				out.Violate("multi-root", "multi-root:packages:"+e, "scanning the two roots together does not give the union of scanning each alone for %s:\n together:\n  %s\n root 1 alone + root 2 alone:\n  %s",
+					e, strings.Join(got, "\n  "), strings.Join(union, "\n  "))
+			}
+		}
+	}
 	distinct := map[string]bool{}
 	for _, f := range fps {
 		distinct[f] = true
@@ -275,4 +329,56 @@ func (c C08X) evaluate(sc *C08XScenario) *sim.Outcome {
 	out.Count("distinct_listing_histories", int64(len(distinct)))
 	out.Sample = map[string]any{"os": sc.OS, "files": describeFiles(sc.Files), "orders": len(sc.Orders), "reps": reps}
 	return out
+}
+
+// genRoot2 adds a second scan root: another machine image with its own (different) os-release, OS
+// package databases of extractors that root 1 feeds as well, and sometimes the very same nix
+// store path.
+func genRoot2(rt *rapid.T, t *table, sc *C08XScenario, enabled []string) {
+	hasPath := func(fs []FileSpec, p string) bool {
+		for _, f := range fs {
+			if f.Path == p {
+				return true
+			}
+		}
+		return false
+	}
+	a := pick(rt, len(osReleaseVariants), "r2.osA")
+	b := (a + 1 + pick(rt, len(osReleaseVariants)-1, "r2.osB")) % len(osReleaseVariants)
+	if !hasPath(sc.Files, "etc/os-release") {
+		sc.Files = append(sc.Files, FileSpec{Path: "etc/os-release", Src: Src{Text: osReleaseVariants[a]}})
+	}
+	// root 1 as a placer again, to add databases next to what is already there
+	pa := newPlacer(t)
+	pa.files = sc.Files
+	for _, f := range sc.Files {
+		pa.used[f.Path] = true
+	}
+	pa.next = 80
+	q := newPlacer(t)
+	q.next = 50
+	var osx []string
+	for _, e := range []string{"os/dpkg", "os/apk", "os/pacman", "os/portage", "os/cos", "os/kernel/module", "os/flatpak"} {
+		if has(enabled, e) {
+			osx = append(osx, e)
+		}
+	}
+	for k, n := 0, 1+pick(rt, 2, "r2.n"); k < n && len(osx) > 0; k++ {
+		e := osx[pick(rt, len(osx), fmt.Sprintf("r2.ext%d", k))]
+		if fi := pickFixture(rt, t, e, 300_000, true, fmt.Sprintf("r2.f%d", k)); fi >= 0 {
+			q.place(fi, homeTmpl(rt, t, fi, fmt.Sprintf("r2.tm%d", k)), drawDir(rt, fmt.Sprintf("r2.dir%d", k), false))
+		}
+		if fi := pickFixture(rt, t, e, 300_000, true, fmt.Sprintf("r2.g%d", k)); fi >= 0 {
+			pa.place(fi, homeTmpl(rt, t, fi, fmt.Sprintf("r2.tn%d", k)), drawDir(rt, fmt.Sprintf("r2.dirb%d", k), false))
+		}
+	}
+	addHealthy(rt, q, enabled, map[string]bool{}, pick(rt, 3, "r2.h"), 300_000)
+	q.add(FileSpec{Path: "etc/os-release", Src: Src{Text: osReleaseVariants[b]}})
+	if chance(rt, 25, "r2.nix") && has(enabled, "os/nix") {
+		ptar := "nix/store/" + nixHash + "-perl-5.38.2/bin/ptar"
+		q.add(FileSpec{Path: ptar, Src: Src{Text: "#!/bin/sh\n"}, Exec: true})
+		pa.add(FileSpec{Path: ptar, Src: Src{Text: "#!/bin/sh\n"}, Exec: true})
+	}
+	sc.Files = pa.files
+	sc.Root2 = q.files
 }
